@@ -31,6 +31,12 @@ META = {
         text="Kernel-checked for all interleavings: exactly-once delivery, nothing lost while a handle is open, close unblocks and never disturbs others, every later call on a closed handle fails, last close releases the socket and leaves nothing queued or blocked; hand-over is always possible when an item is queued and a handle is blocked.",
         note="Partial for liveness in real time (the campaign's oracle demands hand-over within 20 ms) and for kernel behaviour (RST/FIN of undelivered connections), observed only. Trusted: Lean kernel, hand model, harness linearisation.",
     ),
+    "C18": dict(
+        engine="E9 life + E2 udp + E5 listeners",
+        technique="Lean 4 theorems that no input reaches a panic effect in the models that make index, slice and buffer arithmetic explicit (address parser on every byte string, validatePacket, client datagrams in any state, target replies of every size within the read buffer), totality of the stream decoder, one-close-per-connection, association and listener resource balance, plus regenerated containment facts (handlers joined and recovered, per-datagram recover, helper goroutine joined); differential/oracle campaign attacking the real server process with hostile clients and targets",
+        text="Kernel-checked on the models: no byte string, authenticated plaintext or target reply size produces an out-of-range index or slice; truncated streams are errors; every connection ends with exactly one close; associations added = removed + live; last close releases. Observed on the real process: alive, no recovered panic, still serving, goroutines/fds back to baseline after each batch and after Stop.",
+        note="Partial by nature: process-level crash freedom and leak freedom of the real binary are observed by the campaign, not proved; the theorems cover the modelled byte-level paths. Trusted: Lean kernel, hand models (validated by udp/tcp/shared campaigns), wiring extractor.",
+    ),
     "C17": dict(
         engine="E7 metrics",
         technique="Lean 4 refinement proof: the tunnel-time bookkeeping model (reference counts, period restart on scrape, report on last close) against an independent per-client specification (time accrues exactly while depth>0), by induction over arbitrary op histories with a non-decreasing clock; differential correspondence with the real Prometheus collectors under a stubbed clock",
